@@ -15,7 +15,7 @@ CLAIMED = {
                 note="Trusts the cbindgen emulators (C and C++ shape).",
                 tech="runtime monitoring: repeated tool executions + compilers as acceptors + text oracles"),
     "C05": dict(cat="exploration", design="§5 C05", engine="xmod",
-                text="A host binary dlopen()s a plugin cdylib built separately by another compiler version / optimisation level / repr(Rust) layout seed, each with its own tagging allocator and payload registry (plus module pairs built with the library's rust_void feature, where the erased type is zero-sized); seeded lifecycle histories over plugin-made objects are compared with the same histories on host-made objects, and both allocators watch for foreign or mis-sized frees and leftover instances; foreign CVecs are edited with every growing/shrinking operation in both directions, bare CArcs are cloned and released on either side in every order, and an object that is the sole holder of a library-like context is consumed across the boundary under a backtrace oracle.",
+                text="A host binary dlopen()s a plugin cdylib built separately by another compiler version / optimisation level / repr(Rust) layout seed, each with its own tagging allocator and payload registry (plus module pairs built with the library's rust_void feature, where the erased type is zero-sized); seeded lifecycle histories over plugin-made objects are compared with the same histories on host-made objects, and both allocators watch for foreign or mis-sized frees and leftover instances; foreign CVecs are edited with every growing/shrinking operation in both directions, bare CArcs are cloned and released on either side in every order, a Future object is polled through its vtable entry by a hand-written executor speaking the C ABI of the waker types; and an object that is the sole holder of a library-like context is consumed across the boundary under a backtrace oracle.",
                 note="Four installed toolchains only; both modules share the OS allocator underneath, ownership is observed by the per-module tracking tables.",
                 tech="runtime monitoring: cross-module differential histories + per-module tagging allocators"),
     "C16": dict(cat="exploration", design="§5 C16", engine="cview",
@@ -31,7 +31,7 @@ CLAIMED = {
                 note="The judgement per cell is the trait solver's (static); the matrix is read out at run time. Witnesses cover rule families, not every cell.",
                 tech="exhaustive finite matrix read out by an executed probe + Miri data-race witnesses"),
     "C03": dict(cat="translation_validation", design="§5 C03", engine="expander",
-                text="Output validation of generator runs: the real generator (cglue-gen linked as a library into /verif/expander) is executed on ~400 (quick) / ~1000 (thorough) definition cases over the bounded grammar; every output is compiled as plain source with improper_ctypes_definitions/improper_ctypes denied, together with by-value and by-reference extern \"C\" probes of every opaque object/group type and every library wrapper type. A canary proves the lint is alive in the same build. The judgement is the compiler's (static); the executions and their validation are ours.",
+                text="Output validation of generator runs: the real generator (cglue-gen linked as a library into /verif/expander) is executed on ~400 (quick) / ~1000 (thorough) definition cases over the bounded grammar; every output is compiled as plain source with improper_ctypes_definitions/improper_ctypes denied, together with by-value and by-reference extern \"C\" probes of every opaque object/group type and every library wrapper type. The library crate itself is checked with the same lints under three feature sets. A canary proves the lint is alive in the same build. The judgement is the compiler's (static); the executions and their validation are ours.",
                 note="Trusts rustc's FFI-safety lints; generic container parameters are opaque to the lint inside generic wrappers (covered by concrete probes).",
                 tech="runtime monitoring of generator executions: per-output validation by the compiler's FFI lint"),
     "C04": dict(cat="exploration", design="§5 C04", engine="glue",
@@ -59,7 +59,7 @@ CLAIMED = {
                 note="Restricted to combinations cglue accepts at compile time.",
                 tech="runtime monitoring: exhaustive generated cast sites with event-log dispatch oracle"),
     "C10": dict(cat="exploration", design="§5 C10",
-                text="Model-based runtime monitoring: a sequential reference model of handle counts is stepped in lock-step with real CArc/CArcSome pools over bounded-exhaustive and seeded histories, forged handles with counting clone/drop stubs observe which functions the library calls, payloads aligned to 16..4096 bytes, Send/Sync parity with Arc read out by a probe, and concurrent workloads run under Miri's data-race detector (one schedule seed per process) and TSan. Held on the executions driven, not a proof.",
+                text="Model-based runtime monitoring: a sequential reference model of handle counts is stepped in lock-step with real CArc/CArcSome pools over bounded-exhaustive and seeded histories, forged handles with counting clone/drop stubs (shared cell, one handle per reference, no drop function) observe which functions the library calls, payloads aligned to 16..4096 bytes, Send/Sync parity with Arc read out by a probe, and concurrent workloads run under Miri's data-race detector (one schedule seed per process) and TSan. Held on the executions driven, not a proof.",
                 note="Trusts: Weak::strong_count as the real count; Miri with Stacked Borrows disabled; the tracking allocator and Tracked registry in /verif/vmon.",
                 tech="runtime monitoring: reference-model differential + Miri/ASan/TSan + counting stubs"),
     "C11": dict(cat="exploration", design="§5 C11",
@@ -71,7 +71,7 @@ CLAIMED = {
                 note="Trusts core::str::from_utf8 as the UTF-8 reference.",
                 tech="runtime monitoring: exhaustive small-domain round trips + reference validator + Miri/ASan"),
     "C13": dict(cat="exploration", design="§5 C13",
-                text="Encode/decode monitors over OS error codes (quick: +-65536 and boundaries; thorough: all 2^32), non-OS errors, drop-tracked success payloads and a live sentinel in the output slot on the Err path (must stay untouched), natively, under Miri (uninit slot reads are errors) and valgrind; plus the same end-to-end through generated int_result trait methods.",
+                text="Encode/decode monitors over OS error codes (quick: +-65536 and boundaries; thorough: all 2^32), non-OS errors, drop-tracked success payloads and a live sentinel in the output slot on the Err path (must stay untouched), natively, under Miri (uninit slot reads are errors) and valgrind; plus the same end-to-end through generated int_result trait methods, incl. direct calls of the vtable entries with a pre-loaded output slot.",
                 note="Trusts the Tracked registry; Miri with Stacked Borrows disabled.",
                 tech="runtime monitoring: sentinel slots + drop registry + Miri uninit detection"),
     "C14": dict(cat="exploration", design="§5 C14",
@@ -83,7 +83,7 @@ CLAIMED = {
                 note="Trusts the harness sinks/sources.",
                 tech="runtime monitoring: exhaustive grid with sequence + ownership oracles, Miri/ASan"),
     "C19": dict(cat="exploration", design="§5 C19",
-                text="A Future/Stream/Sink polled through an opaque CGlue object interprets waker scripts (clone/wake/wake_by_ref/drop/send-to-thread, inside and after the poll); a counting Arc waker is the oracle for wake counts and for the reference count never dropping below the caller's own handles and returning to baseline. All scripts up to depth 5-6 natively, depth 3 under Miri, threaded scripts under Miri schedule seeds and TSan.",
+                text="A Future/Stream/Sink polled through an opaque CGlue object interprets waker scripts (clone/wake/wake_by_ref/drop/send-to-thread, inside and after the poll); a counting Arc waker is the oracle for wake counts and for the reference count never dropping below the caller's own handles and returning to baseline. All scripts up to depth 5-6 natively, depth 3 under Miri, threaded scripts under Miri schedule seeds and TSan; the no_std build of the library under concurrent clone/wake/drop of a retained handle (native + Miri).",
                 note="Trusts Arc strong counts read through a Weak; Miri with Stacked Borrows disabled.",
                 tech="runtime monitoring: scripted workload + reference-count oracle + Miri/ASan/TSan"),
 }
